@@ -303,3 +303,41 @@ fn eq_pair<const N: usize, const M: usize>() {
 }
 #[kani::proof] #[kani::unwind(6)] fn eq_3_3() { eq_pair::<3, 3>() }
 #[kani::proof] #[kani::unwind(6)] fn eq_2_4() { eq_pair::<2, 4>() }
+
+use core::ops::Bound;
+fn any_bound() -> Bound<usize> {
+    let k: u8 = kani::any(); let v: usize = kani::any();
+    if k == 0 { Bound::Included(v) } else if k == 1 { Bound::Excluded(v) } else { Bound::Unbounded }
+}
+fn bounds_to_range(lo: Bound<usize>, hi: Bound<usize>, len: usize) -> Option<(usize, usize)> {
+    // mathematical (start, end) in u128 to avoid overflow; None if outside the documented domain
+    let s: u128 = match lo { Bound::Included(x) => x as u128, Bound::Excluded(x) => x as u128 + 1, Bound::Unbounded => 0 };
+    let e: u128 = match hi { Bound::Included(x) => x as u128 + 1, Bound::Excluded(x) => x as u128, Bound::Unbounded => len as u128 };
+    if s <= e && e <= len as u128 { Some((s as usize, e as usize)) } else { None }
+}
+
+#[kani::proof] #[kani::unwind(6)]
+fn range_total_n3() {
+    let b = any_buf::<3>();
+    let (lo, hi) = (any_bound(), any_bound());
+    if let Some((s, e)) = bounds_to_range(lo, hi, b.len()) {
+        let mut it = b.range((lo, hi));
+        assert!(it.len() == e - s);
+        let mut i = s;
+        while i < e { let t = it.next().unwrap(); assert!(t.id as usize == i); i += 1; }
+        assert!(it.next().is_none());
+    }
+    core::mem::forget(b);
+}
+
+#[kani::proof] #[kani::unwind(6)]
+fn range_must_panic_n3() {
+    let b = any_buf::<3>();
+    let (lo, hi) = (any_bound(), any_bound());
+    if bounds_to_range(lo, hi, b.len()).is_none() {
+        let it = b.range((lo, hi));
+        assert!(false, "MUST-PANIC-MARKER: range() returned for an invalid range");
+        core::mem::forget(it);
+    }
+    core::mem::forget(b);
+}
